@@ -17,11 +17,10 @@ func vWriteTicks(e *vEnv, tbk *io.TimeBucketKey, ts []int64, ns []int32, vs []in
 	return e.w.WriteCSM(csm, true)
 }
 
-// contract stub for the tick decoder (its precision is C10's subject): any second inside the
-// closed interval and any nanosecond
+// contract stub for the tick decoder (its precision is C10's subject): any instant inside the interval
 func vStubGetTimeFromTicks(intervalStart uint64, intervalsPerDay, intervalTicks uint32) (uint64, uint32) {
 	tf := int64(86400 / intervalsPerDay)
-	return intervalStart + uint64(rt.Fresh("dsec", 0, tf)), uint32(rt.Fresh("dns", 0, 999999999))
+	return intervalStart + uint64(rt.Fresh("dsec", 0, tf-1)), uint32(rt.Fresh("dns", 0, 999999999))
 }
 
 type vTickCall struct {
@@ -85,10 +84,20 @@ func VerifC09History() {
 	}
 	rt.Assume(vs[0] != vs[1] && vs[0] != vs[2] && vs[1] != vs[2])
 	rt.Reach("entered")
-	if err := vWriteTicks(e, tbk, []int64{slot[0] + sec[0], slot[1] + sec[1]}, []int32{ns[0], ns[1]}, []int32{vs[0], vs[1]}); err != nil {
+	k := int(rt.Fix(rt.Int("first_request_rows", 1, 2)))
+	var t1, t2 []int64
+	var n1, n2, w1, w2 []int32
+	for i := 0; i < n; i++ {
+		if i < k {
+			t1, n1, w1 = append(t1, slot[i]+sec[i]), append(n1, ns[i]), append(w1, vs[i])
+		} else {
+			t2, n2, w2 = append(t2, slot[i]+sec[i]), append(n2, ns[i]), append(w2, vs[i])
+		}
+	}
+	if err := vWriteTicks(e, tbk, t1, n1, w1); err != nil {
 		rt.Assert(false, "write-accepted")
 	}
-	if err := vWriteTicks(e, tbk, []int64{slot[2] + sec[2]}, []int32{ns[2]}, []int32{vs[2]}); err != nil {
+	if err := vWriteTicks(e, tbk, t2, n2, w2); err != nil {
 		rt.Assert(false, "write-accepted")
 	}
 	rt.Reach("written")
@@ -113,7 +122,7 @@ func VerifC09History() {
 	rt.Assert(who[0] != who[1] && who[0] != who[2] && who[1] != who[2], "no-record-duplicated")
 	for j := 0; j < n; j++ {
 		i := who[j]
-		rt.Assert(ep[j] >= slot[i] && ep[j] <= slot[i]+tfSec, "decoded-epoch-in-interval")
+		rt.Assert(ep[j] >= slot[i] && ep[j] < slot[i]+tfSec, "decoded-epoch-in-interval")
 		if j > 0 {
 			p := who[j-1]
 			rt.Assert(slot[p] < slot[i] || (slot[p] == slot[i] && ticks[p] <= ticks[i]), "time-order")
